@@ -37,6 +37,11 @@ add("Debug:tuple", "#[derive(derive_more::Debug)] pub struct T(pub i32, #[debug(
 add("Debug:unit_enum", "#[derive(derive_more::Debug)] pub enum T { A, B(i32), C { x: u8 } }", ['format!("{:?}|{:?}|{:#?}", M::T::A, M::T::B(1), M::T::C { x: 2 })'])
 add("Debug:attr", '#[derive(derive_more::Debug)] #[debug("T<{_0}>")] pub struct T(pub i32);', ['format!("{:?}", M::T(7))'])
 add("Debug:generic", "#[derive(derive_more::Debug)] pub struct T<X>(pub X, pub ::core::marker::PhantomData<X>);", ['format!("{:?}", M::T(7u8, ::core::marker::PhantomData))'])
+# unions (documented for the Display-like derives: a literal is required, fields are reachable through `self` only)
+add("Display:union", '#[derive(derive_more::Display)] #[display("Hello there!")] pub union T { pub i: u32, pub f: f32 }', ['format!("{}", M::T { i: 1 })'])
+add("Display:union_self", '#[derive(derive_more::Display)] #[display("{}", unsafe { self.i })] pub union T { pub i: u32, pub b: [u8; 4] }', ['format!("{}", M::T { i: 77 })'])
+add("LowerHex:union_generic", '#[derive(derive_more::LowerHex)] #[lower_hex("{:x}", unsafe { self.i })] pub union T<X: ::core::marker::Copy> { pub i: u32, pub x: X }',
+    ['format!("{:x}", M::T::<u8> { i: 255 })'])
 # ---------------------------------------------------------------- Error
 ERRBASE = "#[derive(derive_more::Debug, derive_more::Display)] pub struct Inner; impl ::std::error::Error for Inner {}\n"
 SRC = 'match ::std::error::Error::source(&{v}) {{ Some(_) => "some", None => "none" }}.to_string()'
